@@ -165,6 +165,10 @@ func c13Schedules(seed uint64, r0 *Resp, thorough bool) []c13Sched {
 		for i := 0; i < 3; i++ {
 			out = append(out, mk("go-random", func(c *SchedConfig) { c.GoMode = "random" }, i))
 		}
+		// ... and preempted inside their bodies (function entries, statements
+		// touching package-level variables), densely and sparsely
+		out = append(out, mk("go-preempt", func(c *SchedConfig) { c.GoMode, c.PreemptEvery = "random", 3 }, 0))
+		out = append(out, mk("go-preempt", func(c *SchedConfig) { c.GoMode, c.PreemptEvery = "random", 40 }, 1))
 	}
 	// everything at once
 	out = append(out, mk("all-mix", func(c *SchedConfig) {
